@@ -190,6 +190,13 @@ func c15Word(c *fw.Ctx, w uint32) {
 			return
 		}
 	}
+	// a field decoded from an experimenter-class OXM carries the experimenter id next to its header: the header word
+	// is still the same four bytes
+	withID := of.MatchField{Class: f.Class, Field: f.Field, HasMask: f.HasMask, Length: f.Length, ExperimenterID: 0x4f4e4600}
+	if got := withID.MarshalHeader(); got != w {
+		c.Violation("header-word", "roundtrip", "Marshal-with-experimenter-id", fmt.Sprintf("header class=%#x field=%d mask=%v len=%d packs to %#08x once the value carries an experimenter id, to %#08x without", f.Class, f.Field, f.HasMask, f.Length, got, w))
+		return
+	}
 	// the other direction: a header value packs and unpacks to itself
 	h := of.MatchField{Class: f.Class, Field: f.Field, HasMask: f.HasMask, Length: f.Length}
 	binary.BigEndian.PutUint32(b[:], h.MarshalHeader())
